@@ -405,6 +405,7 @@ func c10R4(c *Ctx) {
 		return
 	}
 	du := undos[0]
+	successKeepsResult(c, "C10.R4", fn, du, "roll-back of the created interfaces")
 	var createCall *ast.CallExpr
 	for _, cs := range p.CallsTo([]*FuncInfo{fn}, create.Obj) {
 		createCall = cs.Call
